@@ -371,8 +371,12 @@ def _instr(ctx, a):
     ea = enc_ref(a)
     for b in _BI:
         eb = enc_ref(b)
-        for name, (code, ref) in OPS.items():
-            script = push(eb) + push(ea) + code
+        forms = [(name, push(eb) + push(ea) + code, ref) for name, (code, ref) in OPS.items()]
+        if len(eb) < 256:
+            # the tape-operand forms: one unsigned length byte, then the signed divisor (up to 255 bytes)
+            forms.append(('DIV_INT', push(ea) + b'\x11' + bytes([len(eb)]) + eb, OPS['DIV_INTS'][1]))
+            forms.append(('MOD_INT', push(ea) + b'\x13' + bytes([len(eb)]) + eb, OPS['MOD_INTS'][1]))
+        for name, script, ref in forms:
             want = ref(a, b)
             ctx.ran()
             try:
@@ -417,7 +421,7 @@ def _instr(ctx, a):
                 ctx.violation({'op': name, 'clause': 'exact big-int result'},
                               f'top={a} second={b} -> {[i.hex()[:60] for i in items]} want {want}')
             ctx.outcome(name + ':ok')
-    ctx.evaluations += len(_BI) * len(OPS) - 1
+    ctx.evaluations += len(_BI) * (len(OPS) + 2) - 1
 
 
 def blocks(tier, seed):
@@ -446,7 +450,7 @@ def blocks(tier, seed):
                     nshards=len(SPECIAL_ARGS)))
     bi = boundary_ints(8 * MAX_ITEM - 8)
     bl.append(Block('int_instructions', bi if not q else bi[:len(bi)], _instr,
-                    'ADD SUB MULT DIV MOD LESS LEQ on all ordered pairs of boundary ints'))
+                    'ADD SUB MULT DIV MOD LESS LEQ (and the tape-operand DIV_INT / MOD_INT for divisors <= 255 bytes) on all ordered pairs of boundary ints'))
     return bl
 
 
